@@ -10,7 +10,7 @@ from rsx import Edits, RsxError, tokenize, match_close, OPEN, CLOSE, _split_top
 KEPT_DERIVES = {"Clone", "Copy", "PartialEq", "Eq", "Default"}
 DROPPED_DERIVES = {"Debug", "Serialize", "Deserialize", "Parser", "ValueEnum", "Hash", "PartialOrd", "Ord", "Args"}
 DROP_ATTRS = ("doc", "allow", "rustfmt", "must_use", "inline", "non_exhaustive", "command", "arg",
-              "macro_export", "serde", "clap", "cfg_attr", "deprecated", "repr")
+              "macro_export", "serde", "clap", "cfg_attr", "deprecated")
 ENABLED_CFGS = ('cfg(feature = "alloc")', 'cfg(feature = "std")', "cfg(feature = \"alloc\")")
 
 
@@ -123,7 +123,7 @@ def r1_attributes(text, m, ed):
             ed.add(ws, we, "", "R1")
         elif name == "cfg":
             raise RsxError(f"R1: unresolved cfg attribute #[{compact}]")
-        elif name in ("verifier", "derive", "default"):
+        elif name in ("verifier", "derive", "default", "repr"):
             continue
         else:
             raise RsxError(f"R1: unknown attribute #[{compact}]")
